@@ -82,6 +82,105 @@ theorem isNullHead_encHead (mt n : Nat) (rest : Bytes) (hmt : mt < 7) : isNullHe
     simp only
     rw [if_neg (by omega)]
 
+
+/-! ### Go maps (`map[K]V`) -/
+
+/-- concatenation of encoded pairs in the order given -/
+def flatM (es : List (Bytes × Bytes)) : Bytes := (es.map fun p => p.1 ++ p.2).flatten
+
+theorem keyEq_eq (k1 k2 : Val) (h : k1.keyEq k2 = true) : k1 = k2 := by
+  cases k1 <;> cases k2 <;> simp [Val.keyEq] at h <;> simp [h]
+
+/-- no value of a type in the fragment is an `interface{}` value -/
+theorem conf_not_any (ok : CertOracle) : ∀ (g d : Nat) (s : Schema) (a : AnyVal), s.inFragment = true → conf ok g d s (.any a) = false := by
+  intro g
+  induction g with
+  | zero => intro d s a _; simp [conf]
+  | succ g ih =>
+    intro d s a hs
+    cases s <;> simp [Schema.inFragment] at hs <;> simp [conf, labelOK]
+    case bstr e => exact ih _ e a hs
+    case wrap e => exact ih _ e a hs
+
+/-- scalar keys encode the same with any fuel -/
+theorem encodeS_scalarKey (g : Nat) (ks : Schema) (k : Val) (h : ks.scalarKey = true) : encodeS (g + 1) ks k = encodeS 1 ks k := by
+  cases ks <;> simp [Schema.scalarKey] at h <;> cases k <;> simp [encodeS]
+
+/-- sorted keys: the encoded pairs are already in the order `sortByKey` produces, and no two keys are `==` -/
+theorem sorted_facts (ks vs : Schema) (hk : ks.scalarKey = true) : ∀ (g : Nat) (ps : List (Val × Val)) (es : List (Bytes × Bytes)),
+    encodeMapPairs g ks vs ps = some es → mapSortedB ks ps = true →
+    es.Pairwise (fun a b => (!bytesLt b.1 a.1) = true) ∧ ps.Pairwise (fun a b => a.1.keyEq b.1 = false) ∧
+    ∀ e ∈ es, ∃ q ∈ ps, encodeS 1 ks q.1 = some e.1 := by
+  intro g
+  induction g with
+  | zero => intro ps es h; simp [encodeMapPairs] at h
+  | succ g ih =>
+    intro ps es h hsrt
+    cases ps with
+    | nil => simp [encodeMapPairs] at h; subst h; exact ⟨List.Pairwise.nil, List.Pairwise.nil, by simp⟩
+    | cons kv ps =>
+      obtain ⟨k, v⟩ := kv
+      simp only [encodeMapPairs] at h
+      cases h1 : encodeS g ks k with
+      | none => simp [h1] at h
+      | some a =>
+        cases h2 : encodeS g vs v with
+        | none => simp [h1, h2] at h
+        | some b =>
+          cases h3 : encodeMapPairs g ks vs ps with
+          | none => simp [h1, h2, h3] at h
+          | some es' =>
+            simp [h1, h2, h3] at h; subst h
+            have h1' : encodeS 1 ks k = some a := by
+              cases g with
+              | zero => simp [encodeS] at h1
+              | succ g0 => rw [← encodeS_scalarKey g0 ks k hk]; exact h1
+            simp only [mapSortedB, Bool.and_eq_true, List.all_eq_true] at hsrt
+            obtain ⟨ih1, ih2, ih3⟩ := ih ps es' h3 hsrt.2
+            have hlater : ∀ q ∈ ps, ∃ y, encodeS 1 ks q.1 = some y ∧ bytesLt a y = true := by
+              intro q hq
+              have := hsrt.1 q hq
+              simp only [h1'] at this
+              cases hy : encodeS 1 ks q.1 with
+              | none => simp [hy] at this
+              | some y => exact ⟨y, rfl, by simpa [hy] using this⟩
+            refine ⟨List.Pairwise.cons ?_ ih1, List.Pairwise.cons ?_ ih2, ?_⟩
+            · intro e he
+              obtain ⟨q, hq, hqe⟩ := ih3 e he
+              obtain ⟨y, hy, hlt⟩ := hlater q hq
+              rw [hqe] at hy; simp at hy; subst hy
+              simp [bytesLt_asymm _ _ hlt]
+            · intro q hq
+              cases hke : k.keyEq q.1 with
+              | false => rfl
+              | true =>
+                have := keyEq_eq _ _ hke
+                obtain ⟨y, hy, hlt⟩ := hlater q hq
+                rw [← this, h1'] at hy; simp at hy; subst hy
+                rw [bytesLt_irrefl] at hlt; cases hlt
+            · intro e he
+              rcases List.mem_cons.mp he with he | he
+              · subst he; exact ⟨(k, v), by simp, h1'⟩
+              · obtain ⟨q, hq, hqe⟩ := ih3 e he
+                exact ⟨q, by simp [hq], hqe⟩
+
+/-- the typed round trip of the pairs of a map -/
+def RtM (ok : CertOracle) (g : Nat) : Prop :=
+  ∀ (ks vs : Schema) (ps : List (Val × Val)) (es : List (Bytes × Bytes)) (r : Bytes) (d F : Nat) (acc : List (Val × Val)),
+    ks.inFragment = true → vs.inFragment = true → encodeMapPairs g ks vs ps = some es → confPairs ok g d ks vs ps = true →
+    (flatM es).length < 18446744073709551616 → 2 * (flatM es).length + 2 + max ks.ptrDepth vs.ptrDepth ≤ F →
+    (∀ p ∈ acc, ∀ q ∈ ps, p.1.keyEq q.1 = false) → ps.Pairwise (fun a b => a.1.keyEq b.1 = false) →
+    decodeMapPairs ok F d ks vs ps.length acc (flatM es ++ r) = some (acc ++ ps, r)
+
+/-- the untyped decoder on the pairs of a map -/
+def WM (ok : CertOracle) (g : Nat) : Prop :=
+  ∀ (ks vs : Schema) (ps : List (Val × Val)) (es : List (Bytes × Bytes)) (r : Bytes) (dc dr F : Nat),
+    ks.inFragment = true → vs.inFragment = true → encodeMapPairs g ks vs ps = some es → confPairs ok g dc ks vs ps = true →
+    wconfPairs g dr ks vs ps = true →
+    (flatM es).length < 18446744073709551616 → 2 * (flatM es).length + 2 + max ks.ptrDepth vs.ptrDepth ≤ F →
+    ∃ xs, decodePairs F dr ps.length (flatM es ++ r) = some (xs, r)
+
+
 /-- what a `neverNull` type in the fragment encodes never starts with null/undefined -/
 theorem enc_notNull (g : Nat) (s : Schema) (v : Val) (b r : Bytes) (hn : s.neverNull = true)
     (henc : encodeS g s v = some b) : isNullHead (b ++ r) = none := by
@@ -153,6 +252,12 @@ theorem enc_notNull (g : Nat) (s : Schema) (v : Val) (b r : Bytes) (hn : s.never
     case cert =>
       cases v <;> simp [encodeS] at henc
       all_goals (subst henc; rw [List.append_assoc]; exact isNullHead_encHead 2 _ _ (by omega))
+    case mapOf ks vs =>
+      cases v <;> simp [encodeS] at henc
+      rename_i ps
+      cases h1 : encodeMapPairs g ks vs ps with
+      | none => simp [h1] at henc
+      | some es => simp [h1] at henc; subst henc; rw [List.append_assoc]; exact isNullHead_encHead 5 _ _ (by omega)
 
 
 /-- encodings in the fragment are never empty -/
@@ -221,6 +326,12 @@ theorem enc_pos (ok : CertOracle) : ∀ (g : Nat) (s : Schema) (v : Val) (b : By
     case cert =>
       cases v <;> simp [encodeS] at henc
       all_goals (subst henc; have := hh 2 ‹Bytes›.length; simp; omega)
+    case mapOf ks vs =>
+      cases v <;> simp [encodeS] at henc
+      rename_i ps
+      cases h1 : encodeMapPairs g ks vs ps with
+      | none => simp [h1] at henc
+      | some es => simp [h1] at henc; subst henc; have := hh 5 ps.length; simp; omega
     case timestamp =>
       cases v <;> simp [encodeS] at henc
       rename_i z u
@@ -376,7 +487,40 @@ theorem wF_step (ok : CertOracle) (g : Nat) (hS : WS ok g) (hF : WFld ok g) : WF
 
 
 
-theorem wS_step (ok : CertOracle) (g : Nat) (hS : WS ok g) (hL : WL ok g) (hF : WFld ok g) : WS ok (g + 1) := by
+theorem wM_step (ok : CertOracle) (g : Nat) (hS : WS ok g) (hM : WM ok g) : WM ok (g + 1) := by
+  intro ks vs ps es r dc dr F hks hvs henc hconf hw hlen hFu
+  cases ps with
+  | nil =>
+    simp [encodeMapPairs] at henc; subst henc
+    exact ⟨.nil, by cases F <;> simp [decodePairs, flatM]⟩
+  | cons kv ps =>
+    obtain ⟨k, v⟩ := kv
+    simp only [encodeMapPairs] at henc
+    cases h1 : encodeS g ks k with
+    | none => simp [h1] at henc
+    | some a =>
+      cases h2 : encodeS g vs v with
+      | none => simp [h1, h2] at henc
+      | some b =>
+        cases h3 : encodeMapPairs g ks vs ps with
+        | none => simp [h1, h2, h3] at henc
+        | some es' =>
+          simp [h1, h2, h3] at henc; subst henc
+          simp only [confPairs, Bool.and_eq_true] at hconf
+          simp only [wconfPairs, Bool.and_eq_true] at hw
+          have hsplit : flatM ((a, b) :: es') ++ r = a ++ (b ++ (flatM es' ++ r)) := by simp [flatM, List.append_assoc]
+          have hl : (flatM ((a, b) :: es')).length = a.length + b.length + (flatM es').length := by simp [flatM]; omega
+          rw [hl] at hlen hFu
+          rw [hsplit]
+          have pa := enc_pos ok g ks k a dc hks hconf.1.1 h1
+          have pb := enc_pos ok g vs v b dc hvs hconf.1.2 h2
+          obtain ⟨F', rfl⟩ : ∃ F', F = F' + 1 := ⟨F - 1, by omega⟩
+          obtain ⟨x1, d1⟩ := hS ks k a (b ++ (flatM es' ++ r)) dc dr F' hks h1 hconf.1.1 hw.1.1 (by omega) (by omega)
+          obtain ⟨x2, d2⟩ := hS vs v b (flatM es' ++ r) dc dr F' hvs h2 hconf.1.2 hw.1.2 (by omega) (by omega)
+          obtain ⟨xs, d3⟩ := hM ks vs ps es' r dc dr F' hks hvs h3 hconf.2 hw.2 (by omega) (by omega)
+          exact ⟨.cons x1 x2 xs, by simp only [List.length_cons, decodePairs, d1, d2, d3]⟩
+
+theorem wS_step (ok : CertOracle) (g : Nat) (hS : WS ok g) (hL : WL ok g) (hF : WFld ok g) (hM : WM ok g) : WS ok (g + 1) := by
   intro s v b r dc dr F hs henc hconf hw hlen hFu
   obtain ⟨F', rfl⟩ : ∃ F', F = F' + 1 := ⟨F - 1, by omega⟩
   cases s with
@@ -619,18 +763,44 @@ theorem wS_step (ok : CertOracle) (g : Nat) (hS : WS ok g) (hL : WL ok g) (hF : 
     obtain ⟨hke, hks, _⟩ := label_facts v hl
     rw [hke]
     exact ⟨_, scalar_decode_raw (labelAny v) hks r (F' + 1) dr (by omega)⟩
+  | mapOf ks vs =>
+    simp only [Schema.ptrDepth] at hFu
+    simp only [Schema.inFragment, Bool.and_eq_true] at hs
+    cases v <;> try (simp [encodeS] at henc; done)
+    rename_i ps
+    simp only [encodeS] at henc
+    cases h1 : encodeMapPairs g ks vs ps with
+    | none => simp [h1] at henc
+    | some es =>
+      simp [h1] at henc; subst henc
+      simp only [conf, Bool.and_eq_true, decide_eq_true_eq] at hconf
+      simp only [wconf, Bool.and_eq_true, decide_eq_true_eq] at hw
+      obtain ⟨⟨⟨hd1, hpl⟩, hcp⟩, hsrt⟩ := hconf
+      obtain ⟨hp1, _, _⟩ := sorted_facts ks vs hs.1.2 g ps es h1 hsrt
+      have hsort : sortByKey es = es := List.mergeSort_of_pairwise hp1
+      have hflat : ((sortByKey es).map fun p => p.1 ++ p.2).flatten = flatM es := by rw [hsort]; rfl
+      rw [hflat] at hlen hFu ⊢
+      simp only [List.length_append] at hlen hFu
+      have hp := encHead_length_pos 5 ps.length
+      obtain ⟨xs, d1⟩ := hM ks vs ps es r (dc - 1) (dr - 1) F' hs.1.1 hs.2 h1 hcp hw.2 (by omega) (by omega)
+      obtain ⟨ai, hd⟩ := decHead_encHead 5 ps.length (flatM es ++ r) (by omega) (by simp [maxLen] at hpl; omega)
+      refine ⟨.map xs, ?_⟩
+      simp only [decode, List.append_assoc, hd, d1]
+      have : ¬ (ps.length ≥ maxLen ∨ 2 * ps.length ≥ maxLen ∨ dr = 0) := by simp [maxLen] at hpl ⊢; omega
+      simp [this]
   | _ => simp [Schema.inFragment] at hs
 
-theorem w_all (ok : CertOracle) (g : Nat) : WS ok g ∧ WL ok g ∧ WFld ok g := by
+theorem w_all (ok : CertOracle) (g : Nat) : WS ok g ∧ WL ok g ∧ WFld ok g ∧ WM ok g := by
   induction g with
   | zero =>
-    refine ⟨?_, ?_, ?_⟩
+    refine ⟨?_, ?_, ?_, ?_⟩
     · intro s v b r dc dr F _ henc; simp [encodeS] at henc
     · intro e vs b r dc dr F _ henc; simp [encodeList] at henc
     · intro fs vs cnt b r dc dr F _ henc; simp [encodeFields] at henc
+    · intro ks vs ps es r dc dr F _ _ henc; simp [encodeMapPairs] at henc
   | succ g ih =>
-    obtain ⟨hS, hL, hF⟩ := ih
-    exact ⟨wS_step ok g hS hL hF, wL_step ok g hS hL, wF_step ok g hS hF⟩
+    obtain ⟨hS, hL, hF, hM⟩ := ih
+    exact ⟨wS_step ok g hS hL hF hM, wL_step ok g hS hL, wF_step ok g hS hF, wM_step ok g hS hM⟩
 
 
 /-- the three statements proved together by induction on the encoder's fuel -/
@@ -834,7 +1004,56 @@ theorem rtF_step (ok : CertOracle) (g : Nat) (hS : RtS ok g) (hF : RtF ok g) : R
                 simp only [decodeFields, Bool.false_eq_true, and_false, if_false, List.append_assoc, d1, d2]
               · omega
 
-theorem rtS_step (ok : CertOracle) (g : Nat) (hS : RtS ok g) (hL : RtL ok g) (hF : RtF ok g) : RtS ok (g + 1) := by
+theorem rtM_step (ok : CertOracle) (g : Nat) (hS : RtS ok g) (hM : RtM ok g) : RtM ok (g + 1) := by
+  intro ks vs ps es r d F acc hks hvs henc hconf hlen hFu hdis hpw
+  cases ps with
+  | nil =>
+    simp [encodeMapPairs] at henc; subst henc
+    cases F <;> simp [decodeMapPairs, flatM]
+  | cons kv ps =>
+    obtain ⟨k, v⟩ := kv
+    simp only [encodeMapPairs] at henc
+    cases h1 : encodeS g ks k with
+    | none => simp [h1] at henc
+    | some a =>
+      cases h2 : encodeS g vs v with
+      | none => simp [h1, h2] at henc
+      | some b =>
+        cases h3 : encodeMapPairs g ks vs ps with
+        | none => simp [h1, h2, h3] at henc
+        | some es' =>
+          simp [h1, h2, h3] at henc; subst henc
+          simp only [confPairs, Bool.and_eq_true] at hconf
+          have hsplit : flatM ((a, b) :: es') ++ r = a ++ (b ++ (flatM es' ++ r)) := by simp [flatM, List.append_assoc]
+          have hl : (flatM ((a, b) :: es')).length = a.length + b.length + (flatM es').length := by simp [flatM]; omega
+          rw [hl] at hlen hFu
+          rw [hsplit]
+          obtain ⟨F', rfl⟩ : ∃ F', F = F' + 1 := ⟨F - 1, by omega⟩
+          have pa := enc_pos ok g ks k a d hks hconf.1.1 h1
+          have pb := enc_pos ok g vs v b d hvs hconf.1.2 h2
+          obtain ⟨d1, _⟩ := hS ks k a (b ++ (flatM es' ++ r)) d F' hks h1 hconf.1.1 (by omega) (by omega)
+          obtain ⟨d2, _⟩ := hS vs v b (flatM es' ++ r) d F' hvs h2 hconf.1.2 (by omega) (by omega)
+          have hfresh : ∀ p ∈ acc, p.1.keyEq k = false := fun p hp => hdis p hp (k, v) (by simp)
+          have hpw' := (List.pairwise_cons.mp hpw).2
+          have hk' := (List.pairwise_cons.mp hpw).1
+          have hdis' : ∀ p ∈ acc ++ [(k, v)], ∀ q ∈ ps, p.1.keyEq q.1 = false := by
+            intro p hp q hq
+            rcases List.mem_append.mp hp with h | h
+            · exact hdis p h q (by simp [hq])
+            · simp at h; subst h; exact hk' q hq
+          have d3 := hM ks vs ps es' r d F' (acc ++ [(k, v)]) hks hvs h3 hconf.2 (by omega) (by omega) hdis' hpw'
+          -- the decoded key is not an interface value
+          have hna : ∀ a', k ≠ .any a' := by
+            intro a' he; subst he
+            have := conf_not_any ok g d ks a' hks
+            rw [this] at hconf; simp at hconf
+          have hok : (match k with | .any a' => a'.comparable | _ => true) = true := by
+            cases k <;> simp
+            rename_i a'; exact absurd rfl (hna a')
+          simp only [List.length_cons, decodeMapPairs, d1, d2, vmapSet_fresh acc k v hfresh, d3]
+          simp [hok]
+
+theorem rtS_step (ok : CertOracle) (g : Nat) (hS : RtS ok g) (hL : RtL ok g) (hF : RtF ok g) (hM : RtM ok g) : RtS ok (g + 1) := by
   intro s v b r d f hs henc hconf hlen hf
   obtain ⟨f', rfl⟩ : ∃ f', f = f' + 1 := ⟨f - 1, by omega⟩
   cases s with
@@ -1142,19 +1361,44 @@ theorem rtS_step (ok : CertOracle) (g : Nat) (hS : RtS ok g) (hL : RtL ok g) (hF
     refine ⟨?_, hpos⟩
     rw [hke]
     simp only [decodeS, d1, take_prefix, a1, hkl]
+  | mapOf ks vs =>
+    simp only [Schema.ptrDepth] at hf
+    simp only [Schema.inFragment, Bool.and_eq_true] at hs
+    cases v <;> try (simp [encodeS] at henc; done)
+    rename_i ps
+    simp only [encodeS] at henc
+    cases h1 : encodeMapPairs g ks vs ps with
+    | none => simp [h1] at henc
+    | some es =>
+      simp [h1] at henc; subst henc
+      simp only [conf, Bool.and_eq_true, decide_eq_true_eq] at hconf
+      obtain ⟨⟨⟨hd1, hpl⟩, hcp⟩, hsrt⟩ := hconf
+      obtain ⟨hp1, hp2, _⟩ := sorted_facts ks vs hs.1.2 g ps es h1 hsrt
+      have hsort : sortByKey es = es := List.mergeSort_of_pairwise hp1
+      have hflat : ((sortByKey es).map fun p => p.1 ++ p.2).flatten = flatM es := by rw [hsort]; rfl
+      rw [hflat] at hlen hf ⊢
+      simp only [List.length_append] at hlen hf
+      have hp := encHead_length_pos 5 ps.length
+      have d1 := hM ks vs ps es r (d - 1) f' [] hs.1.1 hs.2 h1 hcp (by omega) (by omega) (by simp) hp2
+      obtain ⟨ai, hd, _⟩ := decHead_encHead28 5 ps.length (flatM es ++ r) (by omega) (by simp [maxLen] at hpl; omega)
+      refine ⟨?_, by simp; omega⟩
+      simp only [decodeS, List.append_assoc, hd, d1]
+      have : ¬ (ps.length ≥ maxLen / 2 ∨ d = 0) := by omega
+      simp [this]
   | _ => simp [Schema.inFragment] at hs
 
 
-theorem rt_all (ok : CertOracle) (g : Nat) : RtS ok g ∧ RtL ok g ∧ RtF ok g := by
+theorem rt_all (ok : CertOracle) (g : Nat) : RtS ok g ∧ RtL ok g ∧ RtF ok g ∧ RtM ok g := by
   induction g with
   | zero =>
-    refine ⟨?_, ?_, ?_⟩
+    refine ⟨?_, ?_, ?_, ?_⟩
     · intro s v b r d f _ henc; simp [encodeS] at henc
     · intro e vs b r d f _ henc; simp [encodeList] at henc
     · intro fs vs cnt b r d f _ _ henc; simp [encodeFields] at henc
+    · intro ks vs ps es r d F acc _ _ henc; simp [encodeMapPairs] at henc
   | succ g ih =>
-    obtain ⟨hS, hL, hF⟩ := ih
-    exact ⟨rtS_step ok g hS hL hF, rtL_step ok g hS hL, rtF_step ok g hS hF⟩
+    obtain ⟨hS, hL, hF, hM⟩ := ih
+    exact ⟨rtS_step ok g hS hL hF hM, rtL_step ok g hS hL, rtF_step ok g hS hF, rtM_step ok g hS hM⟩
 
 /-- **decode ∘ encode = id on the fragment**, with any following bytes left untouched. -/
 theorem decodeS_encodeS (ok : CertOracle) (g : Nat) (s : Schema) (v : Val) (b r : Bytes) (d f : Nat)
